@@ -197,7 +197,7 @@ def nla(atype, payload):
     return b + b'\0' * (-len(b) % 4)
 
 
-def enc_acquire(daddr, saddr, sel, policy_index, proto=50, family=socket.AF_INET, mode=0, seq=1, extra_attrs=True):
+def enc_acquire(daddr, saddr, sel, policy_index, proto=50, family=socket.AF_INET, mode=0, seq=1, extra_attrs=True, attr_order='tmpl-first'):
     """XFRM_MSG_ACQUIRE as xfrm_user.c:build_acquire lays it out: user_acquire + TMPL (+ POLICY_TYPE, MARK)."""
     b = bytearray(280)
     b[0:16] = _xaddr(daddr)
@@ -206,9 +206,16 @@ def enc_acquire(daddr, saddr, sel, policy_index, proto=50, family=socket.AF_INET
     b[40:96] = enc_selector(sel)
     b[96:264] = enc_userpolicy_info({'sel': sel, 'index': policy_index, 'dir': 1})
     struct.pack_into('=IIII', b, 264, 0xFFFFFFFF, 0xFFFFFFFF, 0xFFFFFFFF, seq)
-    attrs = nla(XFRMA_TMPL, enc_user_tmpl({'daddr': daddr, 'saddr': saddr, 'proto': proto, 'family': family, 'mode': mode}))
-    if extra_attrs:
-        attrs += nla(XFRMA_POLICY_TYPE, b'\0' * 6) + nla(XFRMA_MARK, b'\0' * 8)
+    tmpl = nla(XFRMA_TMPL, enc_user_tmpl({'daddr': daddr, 'saddr': saddr, 'proto': proto, 'family': family, 'mode': mode}))
+    others = (nla(XFRMA_POLICY_TYPE, b'\0' * 6) + nla(XFRMA_MARK, b'\0' * 8)) if extra_attrs else b''
+    if attr_order == 'tmpl-first':              # what xfrm_user.c:build_acquire emits today
+        attrs = tmpl + others
+    elif attr_order == 'tmpl-last':             # netlink attributes carry their type: a consumer must not depend on their order. (Only attributes whose
+        # length is a multiple of 4 are put in front: the repository's reader does not skip attribute padding, which Linux-shaped messages never need.)
+        ctx = b'system_u:object_r:ipsec_spd_t:s0'                      # 32 octets: XFRMA_SEC_CTX of 8 + 32 octets
+        attrs = nla(XFRMA_MARK, b'\0' * 8) + nla(8, struct.pack('=HHBBH', 8 + len(ctx), 1, 1, 0, len(ctx)) + ctx) + tmpl + (nla(XFRMA_POLICY_TYPE, b'\0' * 6) if extra_attrs else b'')
+    else:                                       # 'tmpl-middle'
+        attrs = nla(XFRMA_MARK, b'\0' * 8) + nla(31, b'\0\0\0\0') + tmpl + nla(XFRMA_POLICY_TYPE, b'\0' * 6)
     return nlmsg(ACQUIRE, bytes(b) + attrs)
 
 
@@ -224,10 +231,14 @@ def enc_expire(daddr, spi, proto, hard, family=socket.AF_INET, saddr=None):
     return nlmsg(EXPIRE, bytes(b))
 
 
-def enc_ack(request, error=0, port_id=0):
+def enc_ack(request, error=0, port_id=0, noop_first=False):
     """NLMSG_ERROR reply as netlink_ack builds it: an acknowledgement (error 0) echoes the request HEADER, an error echoes the WHOLE request
     (the socket did not ask for NETLINK_CAP_ACK)."""
     echoed = bytes(request[:16]) if error == 0 else bytes(request)
     # nlmsg_pid of an answer is the PORT ID of the asking socket: the process id only for the first netlink socket of a process, a kernel-chosen
     # value (0xFFFFEFFF downwards) for every further one - and the daemon keeps its event socket open all its life
-    return nlmsg(NLMSG_ERROR, struct.pack('=i', error) + echoed, seq=struct.unpack_from('=I', request, 8)[0], pid=port_id)
+    msg = nlmsg(NLMSG_ERROR, struct.pack('=i', error) + echoed, seq=struct.unpack_from('=I', request, 8)[0], pid=port_id)
+    if noop_first:
+        # a reply datagram may hold several messages (NLMSG_NOOP is to be skipped): the verdict is not necessarily the first one
+        msg = nlmsg(1, b'', seq=struct.unpack_from('=I', request, 8)[0], pid=port_id) + msg
+    return msg
